@@ -956,6 +956,39 @@ func c17Output(c *Ctx, run *ssa.Function) {
 			jsonIf = &encDeps[i]
 		}
 	}
+	if jsonIf == nil && em.rt.via != nil {
+		// the format is looked up in a table of printers: the json region is
+		// the function registered under "json", under no other key and not
+		// as the default for unlisted formats
+		if keys, isDefault, picked := funcTableKeys(em.rt.via, em.rt.fn); picked {
+			only := len(keys) == 1 && keys[0] == "json" && !isDefault
+			r.Check(only, "O-3", fk+"#json-branch", c.P.Pos(em.call.Pos()), "the JSON emission is in the printer registered under \"json\" only", fmt.Sprintf("the printer that emits JSON is registered under %v (default for other formats: %v), not under \"json\" alone", keys, isDefault))
+			bad := 0
+			ssau.ForEachInstr(em.rt.fn, true, func(ins ssa.Instruction) {
+				if call, ok := ins.(*ssa.Call); ok && isPrintCall(call) && call != em.out {
+					bad++
+				}
+			})
+			r.Check(bad == 0, "O-3", fk+"#json-branch-clean", c.P.Pos(em.call.Pos()), "only the JSON emission writes in the json printer", fmt.Sprintf("%d other output call(s) inside the json printer corrupt the JSON block", bad))
+			built := helperBuilt
+			if ph, ok := em.list.(*ssa.Phi); ok {
+				for _, e := range ph.Edges {
+					if call, ok := e.(*ssa.Call); ok && ssau.CallName(call) == "builtin.append" {
+						built = true
+					}
+				}
+			}
+			if mk, ok := em.list.(*ssa.MakeSlice); ok && jsonBody != nil {
+				for _, ref := range *mk.Referrers() {
+					if ia, ok := ref.(*ssa.IndexAddr); ok && ia.Block() == jsonBody.body {
+						built = true
+					}
+				}
+			}
+			r.Check(built, "O-3", fk+"#json-encode-arg", c.P.Pos(em.call.Pos()), "the JSON emission receives the list built from the results", "the JSON emission is not given the list built in the per-result loop")
+			return
+		}
+	}
 	if jsonIf == nil {
 		r.Unknown("O-3", fk+"#json-branch", c.P.Pos(em.call.Pos()), "the JSON emission is not under a format == \"json\" test")
 		return
@@ -1495,6 +1528,12 @@ func c17Colour(c *Ctx, run *ssa.Function) {
 					if mc, ok := call.Common().Value.(*ssa.MakeClosure); ok {
 						gate = mc.Fn.(*ssa.Function)
 					}
+					// the gate handed down as a parameter: every caller of this
+					// function (table-dispatched ones included) passes one and
+					// the same closure, which is then held to the gate rules
+					if par, ok := call.Common().Value.(*ssa.Parameter); ok && gate == nil {
+						gate = c17GateArgument(c, par)
+					}
 				}
 				if gate == nil {
 					if ok, how := c17EscControlled(c, run, fn, in); ok {
@@ -1679,4 +1718,47 @@ func c17ReadsNoColorItself(h *ssa.Function) bool {
 		}
 	}
 	return true
+}
+
+// c17GateArgument: par is a function-typed parameter; every call site of its
+// function in the shipped program passes, at that position, the same closure
+// (directly or through the local variable holding it); that closure.
+func c17GateArgument(c *Ctx, par *ssa.Parameter) *ssa.Function {
+	fn := par.Parent()
+	idx := -1
+	for i, q := range fn.Params {
+		if q == par {
+			idx = i
+		}
+	}
+	node := c.P.CallGraph().Nodes[fn]
+	if idx < 0 || node == nil {
+		return nil
+	}
+	var gate *ssa.Function
+	n := 0
+	for _, e := range node.In {
+		if e.Site == nil || e.Caller.Func.Synthetic != "" && len(e.Caller.In) == 0 {
+			continue
+		}
+		args := e.Site.Common().Args
+		if e.Site.Common().IsInvoke() || idx >= len(args) {
+			return nil
+		}
+		v := ssau.ResolveCell(args[idx])
+		mc, ok := v.(*ssa.MakeClosure)
+		if !ok {
+			return nil
+		}
+		g, _ := mc.Fn.(*ssa.Function)
+		if g == nil || (gate != nil && gate != g) {
+			return nil
+		}
+		gate = g
+		n++
+	}
+	if n == 0 {
+		return nil
+	}
+	return gate
 }
